@@ -487,6 +487,25 @@ Theorem c01_store_invariant_after_failed_lineage_save : forall (st : state) (c :
 Proof. exact sinv_after_lineage_save_failed. Qed.
 Print Assumptions c01_store_invariant_after_failed_lineage_save.
 
+(* the cut programs are well-formed programs of the store model (the phase automaton admits dropping the guard with the new
+   thread's counter never recorded: Model/ContInv.v carries `the cache holds nothing for the child` through the creation):
+   c01_valid_all_schedules, c01_restart and c01_store_invariant_after_quiescence quantify over histories with failed index
+   saves at any creating call, any number of them, interleaved with anything *)
+Theorem c01_failed_index_save_skeletons_wf : forall (ar : list N) (t : etype) (a1 a2 : list N) (c : N),
+  wf_prog (fail_save (create_prog ar)) = true
+  /\ wf_prog (MTarget c :: MRead :: fail_save (lineage_prog t a1 a2)) = true.
+Proof. exact failed_save_skeletons_wf. Qed.
+Print Assumptions c01_failed_index_save_skeletons_wf.
+
+(* non-vacuity: three actors on the empty store - a first ensure_default whose index save fails, followed by a post to the newest
+   listed thread; a creation followed by a post; a post to the newest listed thread - meet the hypotheses of
+   c01_valid_all_schedules, and a schedule in which the second actor tries to lock inside the failed creation writes 4 frames *)
+Example c01_failed_index_save_actors :
+  (SInv empty_state /\ progs_wf w_sf_actors /\ sess_fresh empty_state w_sf_actors /\ sess_distinct w_sf_actors)
+  /\ validate (s_log (run w_sf_sched (spawn w_sf_actors empty_state))) = true
+  /\ nlen (s_log (run w_sf_sched (spawn w_sf_actors empty_state))) = 4.
+Proof. exact (conj w_sf_hyps w_sf_log). Qed.
+
 (* REFUTED for a retry that creates the SAME id again (the seeded change C01-10): for EVERY such state the log is invalid
    from then on *)
 Theorem c01_retry_same_id_after_logged_frame_invalid : forall (d d1 : dstate) (f : frame),
